@@ -48,7 +48,10 @@ type c10Case struct {
 	Item    string   `json:"item"`            // func | var | stmt | local
 	Uses    int      `json:"uses"`            // bit set of dependencies used by the item
 	History string   `json:"history"`         // single | chain | two | back | clone | reuse | viadep
-	Clash   bool     `json:"clash,omitempty"` // the target dot-imports a package exporting the names of dependency 0
+	// Isolated: the moved declaration is decorated on its own (DecorateNode on the declaration), not as
+	// part of its file
+	Isolated bool `json:"isolated,omitempty"`
+	Clash    bool `json:"clash,omitempty"` // the target dot-imports a package exporting the names of dependency 0
 }
 
 func c10World(extra map[string]string) *oracle.World {
@@ -186,7 +189,7 @@ func init() {
 		ID:    "C10",
 		Level: "model_checking",
 		Rule: "typed worlds: three dependencies (two named x, one whose name differs from its path); source file with import style per dependency in {plain, alias, dot} x moved item {function, function also using a source-local function (ResolveLocalPath), variable, statement} using each non-empty subset of the dependencies " +
-			"x target file (same or another package; optionally dot-importing a further package that exports the same names as the first dependency) with style per dependency in {absent, plain, alias, dot, alias equal to the package name of another dependency, blank import} x histories {single move (quick tier: the further histories for function and statement items using all three dependencies; thorough: everywhere), chain through a third file, two items, move back, move a Clone, and (same package) the target restored by a FileRestorer that restored the source file first, and the item resting in (and being restored inside) the package it refers to before it moves on}; only type-correct source/target files are in the quantifier; decoration with the types-based resolver, restoration with an exact package-name map; " +
+			"x target file (same or another package; optionally dot-importing a further package that exports the same names as the first dependency) with style per dependency in {absent, plain, alias, dot, alias equal to the package name of another dependency, blank import} x histories {single move (quick tier: the further histories for function and statement items using all three dependencies; thorough: everywhere), chain through a third file, two items, move back, move a Clone, and (same package) the target restored by a FileRestorer that restored the source file first, and the item resting in (and being restored inside) the package it refers to before it moves on}; only type-correct source/target files are in the quantifier; decoration with the types-based resolver (of the whole source file, and of the moved declaration alone), restoration with an exact package-name map; " +
 			"oracle: the restored target type-checks and every moved identifier denotes the object of the same package path and name; state = (source styles, target styles, item, uses, history); non-trivial = every state",
 		Assumptions: []string{"go/types of this toolchain is the acceptance oracle", "no declaration of the generated targets shadows an import name (the property's proviso)"},
 		Units: func(tier string) []string {
@@ -259,6 +262,16 @@ func runC10(ctx *core.Ctx, unit int) {
 								continue // quick tier: blank-import targets in single moves only
 							}
 							cs := c10Case{Src: src, Tgt: tgt, Item: item, Uses: uses, History: h, Clash: clash}
+							if h == "single" && !clash && item != "stmt" && (item == "func" && (uses == 7 || uses == 1) || ctx.Thorough()) {
+								// the same move with the declaration decorated on its own
+								ci := cs
+								ci.Isolated = true
+								if o, applicable := c10Check(ci); applicable {
+									ctx.CountState(true)
+									ctx.R.Transitions++
+									ctx.Eval(ci, o)
+								}
+							}
 							if h == "chain" {
 								third := c10File{Pkg: "m/third", Prefix: "u", Styles: [3]int{tgt.Styles[2], tgt.Styles[0], tgt.Styles[1]}}
 								cs.Third = &third
@@ -405,6 +418,32 @@ func c10Check(cs c10Case) (core.Outcome, bool) {
 		perItem = c10VarRefs * bitsSet(cs.Uses)
 	}
 	d, s := takeItem(src.file, cs.Item, "Item")
+	if cs.Isolated && d != nil {
+		var adecl ast.Decl
+		for _, ad := range src.chk.Files[0].Decls {
+			switch x := ad.(type) {
+			case *ast.FuncDecl:
+				if x.Name.Name == "Item" {
+					adecl = ad
+				}
+			case *ast.GenDecl:
+				if vs, ok := x.Specs[0].(*ast.ValueSpec); ok && len(vs.Names) > 0 && vs.Names[0].Name == "Item" {
+					adecl = ad
+				}
+			}
+		}
+		if adecl == nil {
+			return fail("engine:isolated", "declaration Item not found in the source ast")
+		}
+		idec := decorator.NewDecoratorWithImports(src.chk.Fset, c10SrcPath, gotypes.New(src.chk.Info.Uses))
+		idec.ResolveLocalPath = cs.Item == "local"
+		var node dst.Node
+		var ierr error
+		if p := guard(func() { node, ierr = idec.DecorateNode(adecl) }); p != "" || ierr != nil {
+			return fail("isolated-decoration-fails", "DecorateNode on the declaration alone: panic %q error %v", p, ierr)
+		}
+		d = node.(dst.Decl)
+	}
 	if cs.History == "clone" {
 		// the copy travels, the original goes back where it was
 		orig, origS := d, s
